@@ -8,10 +8,10 @@
    descriptor), so a hostile count cannot make the decoder loop or produce more fields than a
    third of the block length.  (The LAZY bcf::Record iterators trust n_info / n_sample: those are
    the known classes hang-bcf-info-iter / hang-bcf-samples-iter.)
-   NOT covered: the typed VALUE decoders of NV.Bcf.Typed / Strings / Genotype still carry RPanic
-   branches of the pinned tree that the decoder repairs (246d8c3, e640bb5, c4a0a4d, b3f84bd) turned
-   into errors; their owner's check never feeds them such bytes, so no totality theorem is stated
-   about them.
+   The typed VALUE decoders (NV.Bcf.Typed / Strings / Genotype / RecordTyped) follow the repaired
+   decoders since C10's update; their panic-freedom on every byte string is NV.Bcf.NeverPanics
+   (re-exported in props/C15.v).  The descriptor reader's recursion (read_type <-> read_value) is
+   one level deep since fix ea50dd5: fuel 2 always suffices (dec_type_depth_two).
    Proofs only; no new model function. *)
 From Coq Require Import List NArith ZArith Bool Lia.
 From Coq Require Import ZifyBool ZifyNat ZifyN.
@@ -25,19 +25,23 @@ Proof.
   injection H as Hx Hr. subst x r. apply Nat.leb_le in E. rewrite skipn_length, firstn_length. lia.
 Qed.
 
+(* peel one match / if off a hypothesis "... = Some _", keeping the equation of the scrutinee *)
+Ltac peel H :=
+  match type of H with
+  | (match ?x with _ => _ end) = _ => destruct x eqn:?; try discriminate H
+  | (if ?c then _ else _) = _ => destruct c eqn:?; try discriminate H
+  end.
+Ltac peel_all H := cbv zeta in H; repeat (peel H; cbv zeta in H).
+Ltac take_facts :=
+  repeat match goal with E : take _ _ = Some _ |- _ => apply take_len in E; destruct E end.
+
 Lemma dec_type_consumes : forall f bs c l r, dec_type f bs = Some (c, l, r) -> (length r < length bs)%nat.
 Proof.
   induction f as [|f IH]; intros bs c l r H; cbn [dec_type] in H; [discriminate|].
-  destruct bs as [|b t]; [discriminate|]. cbn zeta in H.
-  destruct (Z.of_N b / 16 =? 15).
-  - destruct (dec_type f t) as [[[c2 l2] r2]|] eqn:E; [|discriminate]. apply IH in E.
-    destruct (width_of_code c2) as [w|]; [|discriminate]. destruct (l2 =? 1); [|discriminate].
-    destruct (take (wbytes w) r2) as [[x r3]|] eqn:E3; [|discriminate]. apply take_len in E3.
-    destruct (classify w (dec_int w x)); try discriminate.
-    match type of H with (if ?c then _ else _) = _ => destruct c end; [|discriminate].
-    injection H as _ _ Hr. subst r3. cbn [length]. lia.
-  - destruct (valid_code (Z.of_N b mod 16)); [|discriminate].
-    injection H as _ _ Hr. subst r. cbn [length]. lia.
+  destruct bs as [|b t]; [discriminate|]. cbv zeta in H.
+  destruct (dec_type f t) as [[[c2 l2] r2]|] eqn:E.
+  - apply IH in E. peel_all H; take_facts; injection H as _ _ Hr; subst; cbn [length]; lia.
+  - peel_all H; injection H as _ _ Hr; subst; cbn [length]; lia.
 Qed.
 
 Lemma read_type_consumes : forall bs c l r, read_type bs = Some (c, l, r) -> (length r < length bs)%nat.
@@ -51,11 +55,8 @@ Lemma dec_index_consumes : forall bs i r, dec_index bs = Some (i, r) -> (2 + len
 Proof.
   intros bs i r H. unfold dec_index in H.
   destruct (read_type bs) as [[[c l] r0]|] eqn:E; [|discriminate]. apply read_type_consumes in E.
-  destruct (width_of_code c) as [w|]; [|discriminate]. destruct (l =? 1); [|discriminate].
-  destruct (take (wbytes w) r0) as [[x r1]|] eqn:E1; [|discriminate]. apply take_len in E1.
-  destruct (classify w (dec_int w x)); try discriminate.
-  match type of H with (if ?c then _ else _) = _ => destruct c end; [|discriminate].
-  injection H as _ Hr. subst r1. pose proof (wbytes_pos w). lia.
+  destruct (width_of_code c) as [w|]; [|discriminate]. pose proof (wbytes_pos w).
+  peel_all H; take_facts; injection H as _ Hr; subst; lia.
 Qed.
 
 (* a typed value / series: at least its descriptor byte; the block and the rest partition bs *)
@@ -65,10 +66,7 @@ Lemma split_typed_consumes : forall series mult bs vb r,
 Proof.
   intros series mult bs vb r H. unfold split_typed in H.
   destruct (read_type bs) as [[[c l] r0]|] eqn:E; [|discriminate]. apply read_type_consumes in E.
-  match type of H with (if ?c then _ else _) = _ => destruct c end; [discriminate|].
-  destruct (value_payload c l) as [k|]; [|discriminate].
-  destruct (take (mult * k) r0) as [[x r1]|] eqn:E1; [|discriminate]. apply take_len in E1.
-  apply take_len in H. lia.
+  peel_all H. take_facts. lia.
 Qed.
 
 (* n fields cost >= 3 n bytes; the decoder returns exactly n fields *)
@@ -79,72 +77,75 @@ Proof.
   intros m mult dup. induction n as [|n IH]; intros bs l r H; cbn [dec_fields] in H.
   - injection H as Hl Hr. subst l r. split; [lia|reflexivity].
   - destruct (dec_index bs) as [[i r0]|] eqn:E0; [|discriminate]. apply dec_index_consumes in E0.
-    destruct (get_index m (Z.to_nat i)) as [k|]; [|discriminate].
-    destruct (split_typed (negb dup) mult r0) as [[vb r1]|] eqn:E1; [|discriminate].
+    peel H. destruct (split_typed (negb dup) mult r0) as [[vb r1]|] eqn:E1; [|discriminate].
     apply split_typed_consumes in E1.
     destruct (dec_fields m mult dup n r1) as [[l' r2]|] eqn:E2; [|discriminate]. apply IH in E2.
-    destruct (dup && has_key k l'); [discriminate|].
-    injection H as Hl Hr. subst l r. cbn [length]. lia.
+    peel H. injection H as Hl Hr. subst l r. cbn [length]. lia.
 Qed.
 
 Lemma dec_frame_bounded : forall bs sb ib rest, dec_frame bs = Some (sb, ib, rest) ->
   length bs = (8 + length sb + length ib + length rest)%nat.
 Proof.
-  intros bs sb ib rest H. unfold dec_frame in H.
-  destruct (take 4 bs) as [[a r1]|] eqn:E1; [|discriminate].
-  destruct (le_val a =? 0); [discriminate|].
-  destruct (take 4 r1) as [[b r2]|] eqn:E2; [|discriminate].
-  destruct (take (Z.to_nat (le_val a)) r2) as [[sb' r3]|] eqn:E3; [|discriminate].
-  destruct (take (Z.to_nat (le_val b)) r3) as [[ib' r4]|] eqn:E4; [|discriminate].
-  injection H as Hs Hi Hr. subst sb' ib' r4.
-  apply take_len in E1, E2, E3, E4. lia.
+  intros bs sb ib rest H. unfold dec_frame in H. peel_all H.
+  injection H as Hs Hi Hr. subst. take_facts. lia.
 Qed.
 
-(* whatever l_shared, l_indiv, n_info, n_fmt say: an accepted record has its blocks inside the
-   input, exactly n_info INFO fields and n_fmt FORMAT series were decoded, and the FORMAT series
-   number at most |individual block| / 3 (for INFO the same bound relative to the bytes left of the
-   site block after FILTER is dec_fields_bounded) *)
-Theorem dec_record_bounded : forall strings contigs bs h infos fmts rest,
-  dec_record strings contigs bs = Some (h, infos, fmts, rest) ->
-  (8 + 3 * length fmts + length rest <= length bs)%nat /\
-  length infos = Z.to_nat (h_n_info h) /\ length fmts = Z.to_nat (h_n_fmt h).
+(* whatever l_shared, l_indiv, n_info, n_fmt, n_sample say: an accepted record has its blocks inside
+   the input, as many INFO fields and FORMAT series were decoded as the walker was asked for, the
+   FORMAT series number at most |individual block| / 3 (for INFO the same bound relative to the
+   bytes left of the site block after FILTER is dec_fields_bounded), and n_sample does not exceed
+   the header's sample count *)
+Theorem dec_record_bounded : forall strings contigs hs bs h infos fmts rest,
+  dec_record strings contigs hs bs = Some (h, infos, fmts, rest) ->
+  (8 + 3 * length fmts + length rest <= length bs)%nat /\ h_n_sample h <= hs.
 Proof.
-  intros strings contigs bs h infos fmts rest H. unfold dec_record in H.
+  intros strings contigs hs bs h infos fmts rest H. unfold dec_record in H.
   destruct (dec_frame bs) as [[[sb ib] rest']|] eqn:E0; [|discriminate]. apply dec_frame_bounded in E0.
   destruct (dec_head strings contigs sb) as [[h' info_bytes]|] eqn:E1; [|discriminate].
-  destruct (dec_fields strings 1 true (Z.to_nat (h_n_info h')) info_bytes) as [[infos' r1]|] eqn:E2; [|discriminate].
-  destruct (dec_fields strings (Z.to_nat (h_n_sample h')) false (Z.to_nat (h_n_fmt h')) ib) as [[fmts' r2]|] eqn:E3; [|discriminate].
+  destruct (hs <? h_n_sample h') eqn:S; [discriminate|].
+  match type of H with
+  | match dec_fields ?a ?b ?c ?d ?e with _ => _ end = _ =>
+      destruct (dec_fields a b c d e) as [[infos' r1]|] eqn:E2; [|discriminate]
+  end.
+  match type of H with
+  | match dec_fields ?a ?b ?c ?d ?e with _ => _ end = _ =>
+      destruct (dec_fields a b c d e) as [[fmts' r2]|] eqn:E3; [|discriminate]
+  end.
   injection H as Hh Hi Hf Hr. subst h' infos' fmts' rest'.
-  apply dec_fields_bounded in E2, E3. lia.
+  apply dec_fields_bounded in E3. lia.
 Qed.
 
-(* ---- the recursion of read_type <-> read_value (finding stack-bcf-typed-length-nesting) ----
-   In C10's model the recursion is [dec_type]'s fuel.  A descriptor made of n length-overflow
-   bytes 0xf1, the scalar descriptor 0x11 and n value bytes 1 is ACCEPTED (type Int8, length 1)
-   and needs recursion depth n + 1: with fuel n the model fails, with fuel n + 1 it succeeds.
-   The real functions use one pair of stack frames per level, so the depth of the Rust recursion
-   is linear in the input length -- a stack overflow for n ~ 10^5 (reproduced on the crates). *)
-Lemma repeat_snoc : forall (A : Type) (x : A) n, repeat x (S n) = repeat x n ++ [x].
-Proof. intros A x. induction n as [|n IH]; [reflexivity|]. cbn [repeat app] in *. now rewrite <- IH. Qed.
+(* ---- the recursion of read_type <-> read_value ----
+   Before fix ea50dd5 the descriptor 0xf1^n 0x11 0x01^n was accepted with recursion depth n + 1
+   (finding stack-bcf-typed-length-nesting, a stack overflow for n ~ 10^5).  Now the descriptor of
+   a length value may not carry an overflow length itself: depth 2 is always enough -- any fuel
+   >= 2 gives the result of fuel 2, for EVERY byte string. *)
+Lemma dec_type_inner : forall f b t, Z.of_N b / 16 =? 15 = false ->
+  dec_type (S f) (b :: t) = dec_type 1 (b :: t).
+Proof. intros f b t H. cbn [dec_type]. cbv zeta. rewrite H. reflexivity. Qed.
 
-Theorem dec_type_nested_accepts : forall n rest,
-  dec_type (S n) (repeat 241%N n ++ 17%N :: repeat 1%N n ++ rest) = Some (1, 1, rest).
+Theorem dec_type_depth_two : forall f bs, dec_type (S (S f)) bs = dec_type 2 bs.
 Proof.
-  induction n as [|n IH]; intro rest.
-  - reflexivity.
-  - rewrite repeat_snoc with (x := 1%N). rewrite <- app_assoc. cbn [app].
-    change (repeat 241%N (S n)) with (241%N :: repeat 241%N n). cbn [app].
-    remember (S n) as f eqn:Ef. cbn [dec_type]. cbn zeta.
-    change (Z.of_N 241 / 16 =? 15) with true. cbv iota.
-    rewrite IH. reflexivity.
+  intros f bs. destruct bs as [|b r]; [reflexivity|].
+  cbn [dec_type]. cbv zeta. destruct (Z.of_N b / 16 =? 15); [|reflexivity].
+  destruct r as [|b2 t]; [destruct f; reflexivity|].
+  destruct (Z.of_N b2 / 16 =? 15) eqn:E; [reflexivity|].
+  change (match dec_type (S f) (b2 :: t) with Some p => _ | None => _ end)
+    with (match dec_type (S f) (b2 :: t) with Some p => _ | None => _ end).
+  rewrite (dec_type_inner f b2 t E). reflexivity.
 Qed.
 
-Theorem dec_type_nested_needs_depth : forall n rest,
-  dec_type n (repeat 241%N n ++ 17%N :: repeat 1%N n ++ rest) = None.
+Theorem read_type_depth_two : forall bs, read_type bs = dec_type 2 bs \/ bs = [].
 Proof.
-  induction n as [|n IH]; intro rest; [reflexivity|].
-  rewrite repeat_snoc with (x := 1%N). rewrite <- app_assoc. cbn [app].
-  change (repeat 241%N (S n)) with (241%N :: repeat 241%N n). cbn [app].
-  cbn [dec_type]. cbn zeta. change (Z.of_N 241 / 16 =? 15) with true. cbv iota.
-  rewrite IH. reflexivity.
+  intros [|b t]; [right; reflexivity|left]. unfold read_type. cbn [length].
+  destruct t as [|b2 t2]; [|apply dec_type_depth_two].
+  cbn [dec_type]. cbv zeta. destruct (Z.of_N b / 16 =? 15); reflexivity.
+Qed.
+
+(* the former witness of unbounded depth is now rejected *)
+Theorem dec_type_nested_rejected : forall f n rest, (2 <= n)%nat ->
+  dec_type f (repeat 241%N n ++ rest) = None.
+Proof.
+  intros f n rest Hn. destruct n as [|[|n]]; try lia. cbn [repeat app].
+  destruct f as [|f]; [reflexivity|]. cbn [dec_type]. cbv zeta. reflexivity.
 Qed.
